@@ -195,6 +195,8 @@ def sym_scene(sc, swap, fx, fy):
     out = {'family': sc['family'], 'tag': sc['tag'], 'sym': [int(swap), int(fx), int(fy)],
            'nodes': [sym_rect(r, swap, fx, fy) for r in sc['nodes']],
            'edges': [[(n, sym_kind(k, swap, fx, fy)) for n, k in p] for p in sc['edges']], 'ops': []}
+    if 'comb' in sc:
+        out['comb'] = sc['comb']
 
     def pt(x, y):
         if fx: x = -x
@@ -615,9 +617,106 @@ def gen_drag(rng, tag):
     return {'family': fam, 'tag': tag, 'nodes': nodes, 'edges': edges, 'ops': [('DRAG', 0, steps)]}
 
 
-def gen_scenes(rng, n_pinch, n_lattice, n_resize, n_drag=0):
+def gen_comb(rng, tag):
+    """family `comb` ("many events in one pass"): canonical orientation HORIZONTAL (nodes move in x).  K in 20..80 near-vertical, near-parallel edges
+    (variants: parallel T_k -> B_k with their own small end nodes / a fan out of ONE hub node / alternating edge direction), and 1..3 movers in disjoint
+    y-bands strictly inside the y-span of the edges, beside the bundle; every mover is asked (weight 1e4) to cross c_m of the edges in ONE
+    ColaTopologyAddon::moveTo.  Every crossed edge has to be wrapped round the two leading corners of the mover (2 topology events), so the pass needs
+    2 * sum c_m events: about two thirds of the scenes need more than the addon's budget of 100 solve() iterations, the rest are controls that finish
+    with alpha = 1.  Generic coordinates (eighths, no two node sides of different nodes on one scan line).  ops: MOVE (sometimes followed by the
+    same MOVE again = the drag goes on in the next frame, or a MOVE in the other axis) or LAYOUT with a Lock on the movers (ConstrainedFDLayout::run
+    -> setPosition -> moveTo of the addon)."""
+    K = rng.range(20, 80)
+    variant = rng.choice(['parallel', 'parallel', 'parallel', 'fan', 'alternate'])
+    sp = rng.range(11, 24)                           # spacing of the edges
+    H = rng.range(120, 260)                          # y-span
+    slant = rng.range(-8, 8) + rng.range(0, 7) / 8.0
+    e8 = lambda: rng.range(0, 7) / 8.0
+    nodes, edges = [], []
+    nm = rng.choice([1, 1, 1, 2, 2, 3])
+    # movers first (ids 0..nm-1): disjoint y-bands inside (20, H - 20)
+    band = (H - 40.0) / nm
+    from_right = rng.chance(1, 2)
+    xl, xr = -10.0, sp * (K - 1) + abs(slant) + 10.0
+    movers = []
+    for m in range(nm):
+        mh = min(band - 4, rng.range(6, 18)) + e8()
+        mw = rng.range(6, 16) + e8()
+        y0 = 20 + m * band + 1 + rng.below(max(1, int(band - mh - 2))) + e8()
+        gap = rng.range(12, 30) + e8()
+        x0 = (xr + gap) if from_right else (xl - gap - mw)
+        nodes.append((x0, x0 + mw, y0, y0 + mh))
+        movers.append(m)
+    hub = None
+    if variant == 'fan':
+        hw = rng.range(6, 20) + e8()
+        hx = sp * (K - 1) / 2.0 + rng.range(-20, 20) + e8()
+        nodes.append((hx - hw, hx + hw, H - 3 + 0.0625, H + 3 + 0.1875))
+        hub = len(nodes) - 1
+    for k in range(K):
+        xb = sp * k + e8() / 4
+        bw, bh = 2 + rng.range(0, 2) / 2.0 + e8() / 8, 2 + rng.range(0, 2) / 2.0
+        B = (xb - bw, xb + bw, -bh - 0.03125 * (k % 5), bh + 0.03125 * (k % 7))
+        nodes.append(B); b = len(nodes) - 1
+        if hub is None:
+            xt = xb + slant
+            tw, th = 2 + rng.range(0, 2) / 2.0 + e8() / 8, 2 + rng.range(0, 2) / 2.0
+            T = (xt - tw, xt + tw, H - th - 0.015625 * (k % 3), H + th + 0.015625 * (k % 11))
+            nodes.append(T); t = len(nodes) - 1
+        else:
+            t = hub
+        if variant == 'alternate' and k % 2:
+            edges.append([(b, CEN), (t, CEN)])
+        else:
+            edges.append([(t, CEN), (b, CEN)])
+    sc0 = {'nodes': nodes, 'edges': edges}
+    if not scene_ok(sc0, strict=True):
+        return None
+    # how many edges each mover is asked to cross: total events 2 * sum c
+    want_cap = rng.chance(2, 3)
+    cs = []
+    for m in movers:
+        if want_cap:
+            lo = min(K, 100 // (2 * nm) + 2)
+            c = rng.range(lo, K) if lo <= K else K
+        else:
+            c = rng.range(1, max(1, min(K, 96 // (2 * nm))))
+        cs.append(c)
+    dim_ops = []
+    lst = []
+    for m, c in zip(movers, cs):
+        r = nodes[m]
+        # x of the c-th edge (from the mover's side) at the mover's y band
+        kk = (K - c) if from_right else (c - 1)
+        def x_edge(k, y):
+            p = path_points(nodes, edges[k])
+            (ax, ay), (bx, by) = p[0], p[1]
+            return ax + (bx - ax) * (y - ay) / (by - ay)
+        xs = [x_edge(kk, y) for y in (r[2], r[3])]
+        half = (r[1] - r[0]) / 2.0
+        beyond = rng.range(2, sp - 3) / 2.0 + e8()
+        tgt = (min(xs) - beyond - half) if from_right else (max(xs) + beyond + half)
+        lst.append((m, tgt, rng.choice([10000, 10000, 1000])))
+    if rng.chance(1, 3):        # end nodes asked (heavily) to stay where they are
+        lst += [(i, corner(nodes[i], CEN)[0], 1000) for i in range(nm, len(nodes))]
+    kind = rng.below(8)
+    if kind < 5:
+        ops = [('MOVE', 0, lst)]
+    elif kind == 5:
+        ops = [('MOVE', 0, lst), ('MOVE', 0, lst)]
+    elif kind == 6:
+        ops = [('MOVE', 0, lst), ('MOVE', 1, [(m, corner(nodes[m], CEN)[1] + rng.range(-6, 6), 100) for m in movers])]
+    else:
+        ops = [('LAYOUT', 1, [(m, t, corner(nodes[m], CEN)[1]) for (m, t, w) in lst[:nm]], [])]
+    need = 2 * sum(cs)
+    return {'family': 'comb-' + variant, 'tag': tag, 'nodes': nodes, 'edges': edges, 'ops': ops,
+            'comb': {'K': K, 'movers': nm, 'crossings_asked': cs, 'events_needed': need, 'variant': variant}}
+
+
+def gen_scenes(rng, n_pinch, n_lattice, n_resize, n_drag=0, n_comb=0):
     out = []
-    for fam, cnt, g in (('pinch', n_pinch, gen_pinch), ('lattice', n_lattice, gen_lattice), ('resize', n_resize, gen_resize), ('drag', n_drag, gen_drag)):
+    for fam, cnt, g in (('pinch', n_pinch, gen_pinch), ('lattice', n_lattice, gen_lattice), ('resize', n_resize, gen_resize), ('drag', n_drag, gen_drag),
+                        ('comb', n_comb, gen_comb)):
         k = tries = 0
         while k < cnt and tries < cnt * 5:
             tries += 1
